@@ -58,6 +58,8 @@ type c01fn struct {
 	helpers []string          // real names of the unexported helpers, in order of appearance
 	labels  map[string]string
 	keyType string // real name of the join-key type ("" = none)
+	recv    string
+	fields  map[string]string // unexported field of the receiver's struct -> f<index>
 }
 
 func c01Callee(c *ast.CallExpr) string {
@@ -75,6 +77,8 @@ func newC01fn(x *X, dir string, fd *ast.FuncDecl) *c01fn {
 	recv, params, locals := x.LocalNames(fd)
 	if recv != "" {
 		f.ren[recv] = "recv"
+		f.recv = recv
+		f.fields = x.c01RecvFields(dir, fd)
 	}
 	for i, p := range params {
 		f.ren[p] = "p" + strconv.Itoa(i)
@@ -168,6 +172,54 @@ func newC01fn(x *X, dir string, fd *ast.FuncDecl) *c01fn {
 	return f
 }
 
+// c01RecvFields maps the unexported fields of the receiver's struct type to their position (f0, f1, …), so that a
+// renamed field gives the same fact.
+func (x *X) c01RecvFields(dir string, fd *ast.FuncDecl) map[string]string {
+	out := map[string]string{}
+	if fd.Recv == nil || len(fd.Recv.List) != 1 {
+		return out
+	}
+	t := fd.Recv.List[0].Type
+	if st, ok := t.(*ast.StarExpr); ok {
+		t = st.X
+	}
+	id, ok := t.(*ast.Ident)
+	if !ok {
+		return out
+	}
+	return x.c01StructFields(dir, id.Name)
+}
+
+func (x *X) c01StructFields(dir, typeName string) map[string]string {
+	out := map[string]string{}
+	for _, file := range x.files(dir) {
+		for _, d := range file.Decls {
+			gd, ok := d.(*ast.GenDecl)
+			if !ok {
+				continue
+			}
+			for _, sp := range gd.Specs {
+				ts, ok := sp.(*ast.TypeSpec)
+				if !ok || ts.Name.Name != typeName {
+					continue
+				}
+				if st, ok := ts.Type.(*ast.StructType); ok {
+					k := 0
+					for _, fl := range st.Fields.List {
+						for _, n := range fl.Names {
+							if !ast.IsExported(n.Name) {
+								out[n.Name] = "f" + strconv.Itoa(k)
+							}
+							k++
+						}
+					}
+				}
+			}
+		}
+	}
+	return out
+}
+
 func (f *c01fn) isHelper(name string) bool {
 	return !ast.IsExported(name) && !c01Hooked[name] && f.x.anyFuncDecl(f.dir, name) != nil
 }
@@ -194,6 +246,12 @@ func (f *c01fn) src(n ast.Node) string {
 		switch v := m.(type) {
 		case *ast.SelectorExpr:
 			skip[v.Sel] = true
+			if id, ok := v.X.(*ast.Ident); ok && f.recv != "" && id.Name == f.recv {
+				if to, ok := f.fields[v.Sel.Name]; ok {
+					undo = append(undo, saved{v.Sel, v.Sel.Name})
+					v.Sel.Name = to
+				}
+			}
 		case *ast.KeyValueExpr:
 			if id, ok := v.Key.(*ast.Ident); ok {
 				skip[id] = true
@@ -697,10 +755,11 @@ func c01Service(x *X) {
 	if fd := x.funcDecl(dir, "", "NewServiceMonitor"); fd != nil {
 		f := newC01fn(x, dir, fd)
 		var found []string
+		fields := x.c01StructFields(dir, "ServiceMonitor")
 		ast.Inspect(fd.Body, func(n ast.Node) bool {
 			if kv, ok := n.(*ast.KeyValueExpr); ok {
 				if be, ok := kv.Value.(*ast.BinaryExpr); ok && be.Op == token.EQL {
-					found = append(found, f.src(be))
+					found = append(found, fields[x.src(kv.Key)]+" = "+f.src(be))
 				}
 			}
 			return true
